@@ -74,8 +74,11 @@ type c08env struct {
 	formats []string
 	names   []string
 	lattrs  [][]gattr
-	shared  slog.Attr // a Group value shared by all goroutines
+	shared  slog.Attr // a Group value shared by all goroutines (members out of order, duplicate key)
 	sharedG gattr
+	sorted  slog.Attr // another shared Group whose members are already in key order
+	sortedG gattr
+	long    string // a value that makes the record longer than the initial buffer of a print context
 	err     error
 }
 
@@ -95,6 +98,13 @@ func c08Setup(g *rng, nLoggers int) *c08env {
 			{key: "y", val: gval{kind: "int", goVal: 2, tok: "I:2"}}, {key: "x", val: gval{kind: "int", goVal: 1, tok: "I:1"}}}}},
 	}}}
 	e.shared = toAttrs([]gattr{e.sharedG})[0]
+	e.sortedG = gattr{key: "ord", isGroup: true, val: gval{kind: "group", items: []gattr{
+		{key: "a", val: gval{kind: "int", goVal: 1, tok: "I:1"}},
+		{key: "b", val: gval{kind: "string", goVal: "bee", tok: "S:" + hxs("bee"), text: "bee"}},
+		{key: "c", val: gval{kind: "bool", goVal: false, tok: "B:0"}},
+	}}}
+	e.sorted = toAttrs([]gattr{e.sortedG})[0]
+	e.long = strings.Repeat("0123456789abcdef", 100) // 1600 bytes
 	formats := []string{"j", "l", "c"}
 	for i := 0; i < nLoggers; i++ {
 		f := formats[(i+g.intn(3))%3]
@@ -128,6 +138,8 @@ func toAttrsShared(as []gattr, e *c08env) []slog.Attr {
 	for _, a := range as {
 		if a.key == "grp" && a.isGroup {
 			out = append(out, e.shared)
+		} else if a.key == "ord" && a.isGroup {
+			out = append(out, e.sorted)
 		} else {
 			out = append(out, toAttrs([]gattr{a})[0])
 		}
@@ -146,6 +158,10 @@ func (e *c08env) attrsOf(c c08call) []gattr {
 		as = append(as, gattr{key: "err", val: gval{kind: "error", goVal: e.err, tok: "E:" + hxs(e.err.Error()), text: e.err.Error()}})
 	case 3:
 		as = append(as, e.sharedG, gattr{key: "n", val: gval{kind: "int", goVal: 7, tok: "I:7"}})
+	case 4:
+		as = append(as, e.sortedG)
+	case 5:
+		as = append(as, gattr{key: "blob", val: gval{kind: "string", goVal: e.long, tok: "S:" + hxs(e.long), text: e.long}}, e.sortedG)
 	}
 	return as
 }
@@ -201,7 +217,7 @@ func c08Stress(seed uint64, tier string, o c08out) {
 		progs := make([][]c08call, G)
 		for gi := range progs {
 			for i := 0; i < N; i++ {
-				c := c08call{logger: g.intn(nLoggers), verb: g.intn(5), msg: c08Msgs[g.intn(len(c08Msgs))], shape: g.intn(4), id: fmt.Sprintf("g%d-c%d", gi, i)}
+				c := c08call{logger: g.intn(nLoggers), verb: g.intn(5), msg: c08Msgs[g.intn(len(c08Msgs))], shape: g.intn(6), id: fmt.Sprintf("g%d-c%d", gi, i)}
 				if c.msg != "" || c.verb != 4 {
 					c.msg = fmt.Sprintf("call %s. %s", c.id, c.msg)
 				}
